@@ -123,6 +123,29 @@ def fromStrides (strides : List (Option Nat)) (tileBounds : List (List (Option N
     Layout :=
   ⟨(strides.zip tileBounds).map fun p => fromStride p.1 p.2, offset⟩
 
+/-! ### variant WITH fix F42 (finding D42 of C05): `bound * steps[0] if bound and steps[0] is not None else None`
+
+Appended; `mulTruthy` / `stepsFrom` / `fromStride` / `fromStrides` above are the code BEFORE the fix. The two agree unless
+the simple stride is the static 0 (`Lemmas/TslF42.lean`), so every theorem stated for positive strides applies to both. -/
+
+def mulTruthyF (b s : Option Nat) : Option Nat :=
+  match b, s with
+  | some (b + 1), some s => some ((b + 1) * s)
+  | _, _ => none
+
+def stepsFromF (simple : Option Nat) : List (Option Nat) → List (Option Nat)
+  | [] => [simple]
+  | b :: r =>
+    let rest := stepsFromF simple r
+    mulTruthyF b (rest.headD none) :: rest
+
+def fromStrideF (simple : Option Nat) (tileBounds : List (Option Nat)) : TStride :=
+  ((stepsFromF simple tileBounds.tail).zip tileBounds).map fun p => ⟨p.1, p.2⟩
+
+def fromStridesF (strides : List (Option Nat)) (tileBounds : List (List (Option Nat))) (offset : Option Int) :
+    Layout :=
+  ⟨(strides.zip tileBounds).map fun p => fromStrideF p.1 p.2, offset⟩
+
 /-! ## `canonicalize` -/
 
 /-- the squash test of `TiledStride.canonicalize` (`prev` = current innermost kept stride, `s` = next outer) -/
